@@ -205,7 +205,21 @@ class ST:
         raise Unsupported("unary op on a symbolic-shape tensor")
 
     def __vc_truth__(self, I):
+        if all(isinstance(d, int) and d == 1 for d in self.shape):  # a one-element tensor: its element decides
+            e = self.elem(*([0] * len(self.shape)))
+            return I.ex.branch(e if not isinstance(e, bool) else e) if self.dtype == "bool" else I.ex.branch(to_z3(e) != 0)
         raise Unsupported("truth value of a symbolic-shape tensor")
+
+    def __vc_iop__(self, I, op, v):
+        """in-place arithmetic (x += y ...): the object keeps its identity, its element function is replaced (aliases made by plain
+        assignment see the update, like torch tensors sharing storage)"""
+        new = self._bin(I, op, v, False)
+        if len(new.shape) != len(self.shape) or not all(dim_eq(a, b) for a, b in zip(new.shape, self.shape)):
+            raise PyRaise("RuntimeError", "output with shape %s doesn't match the broadcast shape %s" % (list(self.shape), list(new.shape)))
+        self.elem = new.elem
+        if new.dtype == "float":
+            self.dtype = "float" if self.dtype == "float" else self.dtype
+        return self
 
     # ---- indexing
     def _norm_idx(self, idx):
@@ -360,6 +374,73 @@ def _t(I, t):
         raise Unsupported("t() on a non-matrix")
     e = t.elem
     return ST((t.shape[1], t.shape[0]), lambda i, j: e(j, i), t.dtype)
+
+
+@meth("transpose")
+def _transpose(I, t, d0, d1):
+    n = len(t.shape)
+    d0, d1 = d0 % n, d1 % n
+    perm = list(range(n))
+    perm[d0], perm[d1] = perm[d1], perm[d0]
+    e = t.elem
+    return ST(tuple(t.shape[i] for i in perm), lambda *idx: e(*[idx[perm.index(i)] for i in range(n)]), t.dtype)
+
+
+@meth("flatten")
+def _flatten(I, t, start_dim=0, end_dim=-1):
+    n = len(t.shape)
+    a, b = start_dim % n, end_dim % n
+    dims = t.shape[a:b + 1]
+    big = [(i, d) for i, d in enumerate(dims) if not (isinstance(d, int) and d == 1)]
+    if len(big) > 1:
+        raise Unsupported("flatten that merges two symbolic dimensions")
+    keep = big[0][0] if big else 0
+    e = t.elem
+    new_shape = t.shape[:a] + ((big[0][1] if big else 1),) + t.shape[b + 1:]
+
+    def elem(*idx):
+        mid = [0] * len(dims)
+        mid[keep] = idx[a]
+        return e(*(list(idx[:a]) + mid + list(idx[a + 1:])))
+
+    return ST(new_shape, elem, t.dtype)
+
+
+@meth("square")
+def _square(I, t):
+    return ST.ew(I, lambda x: s_mul(I, x, x), t, dtype=t.dtype)
+
+
+SQRT = z3.Function("sqrt", z3.RealSort(), z3.RealSort())
+
+
+def _sqrt(I, t):
+    """assumed contract of sqrt on non-negative reals: sqrt(x) >= 0 and sqrt(x) * sqrt(x) = x (instances at the arguments used)"""
+    e = t.elem
+
+    def elem(*idx):
+        x = to_z3(e(*idx))
+        y = SQRT(x)
+        I.ex.assume(z3.Implies(x >= 0, z3.And(y >= 0, y * y == x)))
+        return y
+
+    return ST(t.shape, elem, "float")
+
+
+METH["sqrt"] = _sqrt
+
+
+def _inplace(fn):
+    def f(I, t, *a, **k):
+        r = fn(I, t, *a, **k)
+        t.elem, t.dtype = r.elem, r.dtype
+        return t
+    return f
+
+
+METH["sqrt_"] = _inplace(_sqrt)
+METH["clamp_min"] = lambda I, t, m: ST.ew(I, lambda x: ct.sc_max(x, m), t, dtype=t.dtype)
+METH["clamp_min_"] = _inplace(METH["clamp_min"])
 
 
 @meth("unsqueeze")
@@ -762,6 +843,13 @@ def f_full(I, size, v, dtype=None, device=None, **k):
     return ST.const(tuple(size), v if not (isinstance(v, int) and ct.dtype_tag(dtype, "long") == "float") else v, ct.dtype_tag(dtype, ct.scalar_dtype(v)))
 
 
+def f_zeros(I, *size, dtype=None, device=None, **k):
+    if len(size) == 1 and isinstance(size[0], (tuple, list)):
+        size = tuple(size[0])
+    dt = ct.dtype_tag(dtype, "float")
+    return ST.const(tuple(size), False if dt == "bool" else 0, dt)
+
+
 def f_full_like(I, t, v, **k):
     return ST.const(t.shape, v, t.dtype)
 
@@ -790,7 +878,7 @@ def dispatch(name, ct_fn):
 
 
 METH["softmax"] = f_softmax
-FUNCS.update({"torch.nn.functional.softmax": f_softmax, "torch.softmax": f_softmax, "torch.pow": f_pow, "torch.matmul": lambda I, a, b: _matmul(I, a, b), "torch.empty": f_empty, "torch.arange": f_arange, "torch.full": f_full, "torch.full_like": f_full_like, "torch.where": f_where, "torch.min": f_min})
+FUNCS.update({"torch.zeros": f_zeros, "torch.nn.functional.softmax": f_softmax, "torch.softmax": f_softmax, "torch.pow": f_pow, "torch.matmul": lambda I, a, b: _matmul(I, a, b), "torch.empty": f_empty, "torch.arange": f_arange, "torch.full": f_full, "torch.full_like": f_full_like, "torch.where": f_where, "torch.min": f_min})
 
 
 def stubs():
